@@ -58,7 +58,7 @@ for c in cases:
             out.append({'rows': recs[1:], 'header': recs[0] if recs else None})
         elif fe == 'pandas':
             df = pandas.DataFrame(rows, columns=names)
-            r = rbql_pandas.query_dataframe(q, df, [])
+            r = rbql_pandas.query_dataframe(q, df, [], None, c.get('normalize', True))
             out.append({'rows': [[str(x) for x in rr] for rr in r.values.tolist()]})
         elif fe == 'sqlite':
             dbp = os.path.join(d, 'db_%d.sqlite' % len(out))
@@ -188,6 +188,14 @@ def gen_binding_cases(rnd, n):
         if fe == 'sqlite' and (any(x == '' for x in names) or len(set(x.lower() for x in names)) != len(names)):
             continue      # SQLite column names are case-insensitive: a table with columns x1 and X1 cannot exist there
         cases.append({'names': names, 'rows': rows, 'query': 'select %s, NR' % var, 'frontend': fe, 'normalize': normalize, 'pos': pos, 'spell': spell})
+    # direct mode with columns NAMED like positional variables (a2 as the name of the first column, …): the bare name is the column of that
+    # name, whatever its position (the header pass runs after the positional pass and wins)
+    for _ in range(n // 10):
+        k = rnd.randint(2, 4)
+        names = rnd.sample(['a1', 'a2', 'a3', 'a4', 'b1', 'b2', 'x', 'a10', 'id'], k)
+        pos = rnd.randrange(k)
+        rows = [['r%d c%d' % (r, c) for c in range(k)] for r in range(1, 4)]
+        cases.append({'names': names, 'rows': rows, 'query': 'select %s, NR' % names[pos], 'frontend': rnd.choice(['list', 'pandas']), 'normalize': False, 'pos': pos, 'spell': 'direct'})
     return cases
 
 
